@@ -12,6 +12,7 @@ import (
 	"io"
 	"net"
 	"net/http"
+	"runtime"
 	"sort"
 	"strings"
 	"sync"
@@ -37,8 +38,10 @@ type e2eWorld struct {
 	udps    []*e2eUDP
 	// scripted traffic logger (nil script = approve everything)
 	tlVeto func(id string, tx, rx uint64) bool
-	// the authenticator takes this long to answer (virtual time): everything else on the connection runs meanwhile
-	authDelay time.Duration
+	// the authenticator is slow: it yields the processor this many times before answering, so that everything else on
+	// the connection runs meanwhile (virtual time cannot be used: a goroutine waiting for hysteria's authMutex is not
+	// durably blocked, so the bubble's clock would never advance)
+	authDelay int
 	// dial script: reqAddr -> error message ("" = ok)
 	dialErr func(reqAddr string) string
 }
@@ -71,7 +74,9 @@ func (w *e2eWorld) Authenticate(addr net.Addr, auth string, tx uint64) (bool, st
 	}
 	if w.authDelay > 0 {
 		w.tr.Ev(kit.E{"ev": "AuthPending", "conn": e2eConnOf(addr)})
-		time.Sleep(w.authDelay)
+		for i := 0; i < w.authDelay; i++ {
+			runtime.Gosched()
+		}
 	}
 	w.tr.Ev(kit.E{"ev": "AuthCall", "conn": e2eConnOf(addr), "ok": ok, "tx": kit.U64(tx)})
 	return ok, id
